@@ -826,9 +826,30 @@ def grd7(P, R, L, rule="GRD-7"):
         return R.missing_anchor(rule, TABLE_GET)
     kmm = normal_sites(b, "tables::filter_block::FilterBlockReader::key_may_match")
     gbr = sites_reaching(P, b, "tables::table::Table::get_block_reader")
-    if not kmm or not gbr:
+    KMM = "tables::filter_block::FilterBlockReader::key_may_match"
+    via_closure = []   # (map_or site, closure body, probe site): `maybe_filter.map_or(<no filter>, |f| f.key_may_match(..))`
+    if not kmm:
+        for c in b.calls():
+            if b.is_cleanup(c.bb) or c.name != "std::option::Option::map_or" or len(c.args) != 3:
+                continue
+            for o in origins(b, c.args[2]):
+                cb = P.bodies.get(o.name) if o.kind == "agg" and isinstance(o.name, str) else None
+                if cb is None:
+                    continue
+                direct = [x for x in cb.calls() if not cb.is_cleanup(x.bb) and x.name == KMM and x.dest and x.dest["l"] == 0]
+                if direct:
+                    R.analysed(cb)
+                    via_closure.append((c, cb, direct[0]))
+    if (not kmm and not via_closure) or not gbr:
         return R.check(rule, TABLE_GET + "|anchors", False, where(b), "Table::get consults the filter and reads a block", "kmm=%d get_block_reader=%d" % (len(kmm), len(gbr)))
-    for k in kmm:
+    for (mo, cb, probe) in via_closure:
+        # without a usable filter block the lookup must go on to the block: the default is `true`
+        dflt = origins(b, mo.args[1])
+        okd = bool(dflt) and all(o.kind == "const" and str(o.name) in ("1", "true") for o in dflt)
+        R.check(rule, TABLE_GET + "|no-filter-means-may-match", okd, mo.where(),
+                "a table without a usable filter block is searched (the `no filter` default of the probe expression is `may match`)",
+                "default %s" % [(o.kind, o.name) for o in dflt])
+    for k in kmm + [mo for (mo, _, _) in via_closure]:
         tests = _bt(b, k.dest["l"])
         ok = bool(tests)
         det = []
@@ -851,8 +872,12 @@ def grd7(P, R, L, rule="GRD-7"):
         R.check(rule, TABLE_GET + "|filter-miss-is-not-found", ok, k.where(),
                 "a filter miss returns Err(KeyNotFound) (never a verdict); a `may match` always goes on to read the block", "; ".join(det))
         # the probe uses the user key of the lookup key and the handle's offset
-        uk_ok = any(o.kind == "call" and o.name == GET_USER_KEY for o in origins(b, k.args[2]))
-        off_ok = any(o.kind == "call" and o.name == "tables::block_handle::BlockHandle::get_offset" for o in origins(b, k.args[1]))
+        pb, pk = b, k
+        for (mo, cb, probe) in via_closure:
+            if mo is k:
+                pb, pk = cb, probe
+        uk_ok = any(o.kind == "call" and o.name == GET_USER_KEY for o in origins(pb, pk.args[2]))
+        off_ok = any(o.kind == "call" and o.name == "tables::block_handle::BlockHandle::get_offset" for o in origins(pb, pk.args[1]))
         R.check(rule, TABLE_GET + "|filter-probe-arguments", uk_ok and off_ok, k.where(),
                 "the filter is probed with the block handle's offset and the lookup key's user key", "user_key=%s offset=%s" % (uk_ok, off_ok))
 
@@ -1456,6 +1481,42 @@ def grd6(P, R, L, rule="GRD-6"):
             tail_ok = False
     R.check(rule, READ_RECORD + "|unexpected-eof-is-always-end-of-log", tail_ok, where(b),
             "from the UnexpectedEof edge of the physical read every path returns end-of-log (never an error, whatever was being reassembled)", "")
+    # ... and the kind of an I/O error is examined before anything else decides about the error: no exit (in particular not
+    # the `report_damaged_records` one that serves the manifest reader) is reachable from the Err edge of the physical read
+    # without passing the ErrorKind test, except over the edge "this is not an I/O error at all"
+    phys_sites = [c for c in b.calls() if c.name == READ_PHYS and not b.is_cleanup(c.bb)]
+    kind_sw = {sb for (sb, _, _) in e_eof} | {c.bb for c in comparisons(b) if kind_src(c.lhs_origins()) or kind_src(c.rhs_origins())}
+    early = []
+    for ps in phys_sites:
+        tests = result_tests(b, ps.dest["l"])
+        test_bbs = {e[0] for t in tests for e in t.err_edges() + t.ok_edges()}
+        for t in tests:
+            for (src, tg) in t.err_edges():
+                # only the test that examines the fresh result (the others are drop-elaboration tests at scope ends)
+                if ps.target is None or src not in b.reachable(ps.target, removed_nodes=[x for x in test_bbs if x != src]):
+                    continue
+                region = b.reachable(tg)
+                bypass = []
+                for sb in region:
+                    tm = b.term(sb)
+                    if tm["k"] != "switch" or sb in test_bbs or sb in kind_sw or tm["discr"]["k"] not in ("copy", "move"):
+                        continue
+                    dl = tm["discr"]["pl"]["l"]
+                    is_variant_of_err = any(d[0] == "stmt" and d[3]["rv"]["k"] == "discr" and
+                                            any(o.kind == "call" and o.site is not None and o.site.bb == ps.bb for o in origins(b, d[3]["rv"]["pl"]))
+                                            for d in b.defs().get(dl, []))
+                    if not is_variant_of_err or not (b.reachable(sb, removed_nodes=[ps.bb]) & kind_sw):
+                        continue
+                    for x in [y[1] for y in tm["targets"]] + ([tm["otherwise"]] if tm.get("otherwise") is not None else []):
+                        if not (b.reachable(x, removed_nodes=[ps.bb]) & kind_sw):
+                            bypass.append((sb, x))
+                for r in b.return_blocks():
+                    if r in region and not b.must_pass(r, through_nodes=list(kind_sw) + [ps.bb], through_edges=bypass, start=tg):
+                        early.append("a return is reachable from the Err edge of the physical read (line %s) before the ErrorKind test" % ps.line)
+                        break
+    R.check(rule, READ_RECORD + "|error-kind-examined-before-any-exit", bool(phys_sites) and bool(kind_sw) and not early, where(b),
+            "from the Err edge of read_physical_record no return is reachable without passing the ErrorKind test (other than for a non-I/O error): "
+            "a torn tail is end-of-log for the manifest reader too", "; ".join(early) or "kind tests at bb%s" % sorted(kind_sw))
     for (bb, line) in eof_blocks:
         ok = (bool(e_eof_edges) and b.must_pass(bb, through_edges=e_eof_edges)) or (bool(e_len) and b.must_pass(bb, through_edges=e_len))
         R.check(rule, READ_RECORD + "|eof-only-when-file-ends", ok, "%s:%s" % (b.file, line),
@@ -2160,6 +2221,8 @@ def grd11_reopen_offset(P, R, L, rule="GRD-11"):
                         k = tuple(sorted(str(o.name) for o in origins(body, oth) if o.kind == "const"))
                         bs = tuple(sorted({str(x.name) for s_ in subs for op_ in s_.extra[1]["rv"]["ops"] for x in origins(body, op_) if x.kind == "const"}))
                         opn = c.op if side is c.lhs else __import__("rdbcheck.rules", fromlist=["SWAP"]).SWAP[c.op]
+                        # a test and its negation (branches swapped) are the same decision
+                        opn = {"ge": "lt", "le": "gt", "ne": "eq"}.get(opn, opn)
                         if k:
                             out.add((opn, k, bs))
             return out
@@ -4199,6 +4262,8 @@ def bundle_recovery(P, R, L):
     from . import c02
     R.once(c02.grd1_replay, P, R, L)
     agr2_codec_pairs(P, R, L, groups=("batch", "log", "manifest"))
+    R.once(grd26_reused_flag_truthful, P, R, L)
+    R.once(grd24_reuse_adopts_number_with_file, P, R, L)
 
 
 def bundle_filter(P, R, L):
@@ -4217,7 +4282,7 @@ def bundle_no_assertion_trips(P, R, L):
     """conditions whose violation trips an always-on assertion on the compaction thread (which then never clears the
     scheduled flag: every waiter hangs)"""
     R.clause("NOPANIC", "compaction-thread assertion bundle: PAIR-9 (parent inputs cover the boundary-expanded range), GRD-16 (trivial move), ROLE-5 "
-             "(version builder order), GRD-14 (non-empty manual inputs), PAIR-10 (closed builder removed), ORD-17 (manual slot), GRD-22 (flush inside a compaction), PAIR-14 (input expansion), GRD-23 (read sampling threshold)")
+             "(version builder order), GRD-14 (non-empty manual inputs), PAIR-10 (closed builder removed), ORD-17 (manual slot), GRD-22 (flush inside a compaction), PAIR-14 (input expansion), GRD-23 (read sampling threshold), GRD-25 (finish only with an open builder)")
     R.once(pair9_boundary_inputs, P, R, L)
     R.once(pair9_levels, P, R, L)
     R.once(grd16_trivial_move, P, R, L)
@@ -4228,6 +4293,7 @@ def bundle_no_assertion_trips(P, R, L):
     R.once(grd22_flush_during_compaction, P, R, L)
     R.once(pair14_input_expansion, P, R, L)
     R.once(grd23_read_sample_threshold, P, R, L)
+    R.once(grd25_finish_only_with_builder, P, R, L)
 
 
 # ------------------------------------------------------------------------------------------- GRD-20 a database is created only when none exists
@@ -5020,3 +5086,78 @@ def err3_merge_seek_reports(P, R, L, rule="ERR-3"):
         R.check(rule, fn + "|child-seek-failure-is-returned", bool(child) and derived > 0, where(b),
                 "the positioning method returns Err(the error of a child seek) — a source that could not be positioned is reported, "
                 "not silently dropped from the merge", "child seek sites %d, Err returns derived from them %d" % (len(child), derived))
+
+
+def grd25_finish_only_with_builder(P, R, L, rule="GRD-25"):
+    """CompactionState::finish_compaction_output_file asserts that an output builder is open, and the assertion runs on the
+    compaction thread (a trip leaves the scheduled flag set: compact_range, stalled writers and Drop hang). In
+    compact_tables a builder is open only after open_compaction_output_file and until the next finish: every call of
+    finish_compaction_output_file is therefore reached — from the entry and from behind every earlier finish — only over
+    the true edge of has_table_builder() or through open_compaction_output_file."""
+    FIN = "compaction::state::CompactionState::finish_compaction_output_file"
+    OPEN_ = "compaction::state::CompactionState::open_compaction_output_file"
+    HAS = "compaction::state::CompactionState::has_table_builder"
+    n = 0
+    for name, b in sorted(P.bodies.items()):
+        if not name.startswith("compaction::worker::CompactionWorker::compact_tables"):
+            continue
+        fin = [c for c in b.calls() if not b.is_cleanup(c.bb) and c.name == FIN]
+        if not fin:
+            continue
+        R.analysed(b)
+        opens = [c.bb for c in b.calls() if not b.is_cleanup(c.bb) and c.name == OPEN_]
+        true_edges = []
+        for h in b.calls():
+            if h.name == HAS and not b.is_cleanup(h.bb):
+                for t in _bt(b, h.dest["l"]):
+                    true_edges += t.ok_edges()
+        for f in fin:
+            n += 1
+            bad = []
+            for start, what in [(0, "the entry")] + [(g.target, "the finish at line %s" % g.line) for g in fin if g.target is not None]:
+                if not b.must_pass(f.bb, through_edges=true_edges, through_nodes=opens, start=start):
+                    bad.append("reachable from %s with no builder test / open in between" % what)
+            R.check(rule, "%s|finish@%d|only-with-an-open-builder" % (name, fin.index(f)), not bad, f.where(),
+                    "finish_compaction_output_file is reached only over has_table_builder() == true or through open_compaction_output_file "
+                    "(from the entry and from behind every earlier finish)", "; ".join(bad) or "guards: %d true edges, %d open sites" % (len(true_edges), len(opens)))
+    R.floor(rule, "finish_compaction_output_file sites in compact_tables", n, 3)
+
+
+def grd26_reused_flag_truthful(P, R, L, rule="GRD-26"):
+    """VersionSet::recover returns whether the existing manifest was adopted for appending. DB::open writes a fresh manifest
+    (snapshot + CURRENT switch) exactly when that flag is false, and the garbage collection that follows keeps only
+    `manifest_file_number` — which recover has already advanced. `Ok(true)` without an adopted manifest therefore leaves the
+    database without any manifest after the first collection. Rule: `Ok(true)` is returned only over the true edge of
+    maybe_reuse_manifest (or the call's value is returned as it is)."""
+    fn = "versioning::version_set::VersionSet::recover"
+    REUSE = "versioning::version_set::VersionSet::maybe_reuse_manifest"
+    b = P.body(fn)
+    if b is None:
+        return R.missing_anchor(rule, fn)
+    R.analysed(b)
+    calls = [c for c in b.calls() if not b.is_cleanup(c.bb) and c.name == REUSE]
+    true_edges = []
+    for c in calls:
+        for t in _bt(b, c.dest["l"]):
+            true_edges += t.ok_edges()
+    bad, n = [], 0
+    for bb in range(b.n):
+        if b.is_cleanup(bb):
+            continue
+        for st in b.blocks[bb]["stmts"]:
+            if st["k"] == "assign" and st["pl"]["l"] == 0 and not st["pl"]["p"] and st["rv"]["k"] == "aggregate" and st["rv"].get("variant") == "Ok":
+                n += 1
+                os_ = [o for op in st["rv"].get("ops", []) for o in origins(b, op)]
+                for o in os_:
+                    if o.kind == "const" and str(o.name) in ("false", "0"):
+                        continue
+                    if o.kind == "call" and o.name == REUSE:
+                        continue
+                    if o.kind == "const" and str(o.name) in ("true", "1"):
+                        if not (true_edges and b.must_pass(bb, through_edges=true_edges)):
+                            bad.append("line %s returns Ok(true) on a path that does not pass maybe_reuse_manifest() == true" % st.get("line"))
+                        continue
+                    bad.append("line %s returns Ok(%s %s)" % (st.get("line"), o.kind, o.name))
+    R.check(rule, fn + "|reused-only-when-adopted", bool(calls) and n > 0 and not bad, where(b),
+            "Ok(true) ('the manifest was adopted, write no new one') is returned only over the true edge of maybe_reuse_manifest",
+            "; ".join(bad) or "%d Ok returns, %d true edges" % (n, len(true_edges)))
